@@ -201,6 +201,8 @@ pub struct CodegenContext {
     import_stack: Vec<PathBuf>,
     /// The number of macro invocations that are currently being expanded, used to detect runaway recursion
     macro_depth: usize,
+    emit_depth: usize,
+    expanding_macros: Vec<(Identifier, Span)>,
     loop_iterations: usize,
     /// The banks and segments that were defined in the current pass (a second definition replaces the first,
     /// dropping whatever was emitted to it)
@@ -257,6 +259,8 @@ impl CodegenContext {
             next_macro_scope_id: 0,
             import_stack: vec![],
             macro_depth: 0,
+            emit_depth: 0,
+            expanding_macros: vec![],
             loop_iterations: 0,
             defined_in_pass: Default::default(),
             test_elements: vec![],
@@ -594,12 +598,28 @@ impl CodegenContext {
     }
 
     fn emit_tokens(&mut self, tokens: &[Token]) -> CoreResult<()> {
+        // Blocks inside macro bodies multiply with the macro depth (the parser bounds only what is nested in the text),
+        // and code generation recurses once per level
+        const MAX_EXPANSION_DEPTH: usize = 150;
+        if self.emit_depth >= MAX_EXPANSION_DEPTH {
+            if let Some((name, span)) = self.expanding_macros.last() {
+                return Err(Diagnostic::error()
+                    .with_message(format!(
+                        "macro '{}' is expanded into blocks nested more than {} levels deep",
+                        name, MAX_EXPANSION_DEPTH
+                    ))
+                    .with_labels(vec![span.to_label()])
+                    .into());
+            }
+        }
         let mut errors = Diagnostics::default();
+        self.emit_depth += 1;
         for token in tokens {
             if let Err(result) = self.emit_token(token) {
                 errors.extend(result);
             }
         }
+        self.emit_depth -= 1;
         if errors.is_empty() {
             Ok(())
         } else {
@@ -1211,6 +1231,7 @@ impl CodegenContext {
                         Identifier::new(format!("$macro_{}", self.next_macro_scope_id));
                     self.next_macro_scope_id += 1;
                     self.macro_depth += 1;
+                    self.expanding_macros.push((name.data.clone(), name.span));
 
                     let macro_result = self.with_scope(&macro_scope, None, |s| {
                         for (idx, arg_name) in def.args.iter().enumerate() {
@@ -1239,6 +1260,7 @@ impl CodegenContext {
                         Ok(())
                     });
                     self.macro_depth -= 1;
+                    self.expanding_macros.pop();
                     macro_result?;
                 } else {
                     self.undefined.insert(UndefinedSymbol {
